@@ -1076,6 +1076,88 @@ func doFreq(c *core.Ctx, s *sampler, what string, k, n int, seed0 int64, nseeds 
 	c.Emit("C20.freq", what, itoa(k), itoa(n), strconv.FormatInt(seed0, 10), itoa(nseeds), core.IntList(l))
 }
 
+// ---------------------------------------------------------------- marginal frequencies (model-free)
+
+// doMarg runs the REAL code on nseeds seeds and counts simple events, with no model and no draw
+// script involved: item i selected / slot s holds item i / position p holds original element q /
+// tips i<j form a cherry of the generated unrooted tree.  The driver compares the counts with the
+// exact binomial bounds of the probability the property gives to the event.
+func doMarg(c *core.Ctx, s *sampler, what string, k, n int, seed0 int64, nseeds int) {
+	var counts []int
+	parse := func(out string) []int {
+		f := strings.Split(out, ".")
+		v := make([]int, 0, len(f))
+		for _, x := range f {
+			y, err := strconv.Atoi(x)
+			if err != nil {
+				return nil
+			}
+			v = append(v, y)
+		}
+		return v
+	}
+	switch what {
+	case "utreeU":
+		counts = make([]int, n*(n-1)/2)
+		idx := func(i, j int) int { // i < j, row-major upper triangle
+			return i*n - i*(i+1)/2 + (j - i - 1)
+		}
+		for q := 0; q < nseeds; q++ {
+			rand.Seed(seed0 + int64(q))
+			t, err := tree.RandomUniformBinaryTree(n, false)
+			if err != nil {
+				continue
+			}
+			for _, nd := range t.Nodes() {
+				if nd.Nneigh() < 2 {
+					continue
+				}
+				var tips []int
+				for _, nb := range nd.Neigh() {
+					if nb.Nneigh() == 1 {
+						v, e := strconv.Atoi(strings.TrimPrefix(nb.Name(), "Tip"))
+						if e == nil && v < n {
+							tips = append(tips, v)
+						}
+					}
+				}
+				for a := 0; a < len(tips); a++ {
+					for b := a + 1; b < len(tips); b++ {
+						i, j := tips[a], tips[b]
+						if i > j {
+							i, j = j, i
+						}
+						counts[idx(i, j)]++
+					}
+				}
+			}
+		}
+	default:
+		fk := mkFib(c, s, what, k, n)
+		rows := 1
+		if what == "replace" {
+			rows = k
+		} else if what != "sample" && what != "tips" && what != "tipsR" && what != "tipsT" {
+			rows = n
+		}
+		counts = make([]int, rows*n)
+		for q := 0; q < nseeds; q++ {
+			v := parse(fk.run(seed0 + int64(q)))
+			for pos, it := range v {
+				if it < 0 || it >= n {
+					continue
+				}
+				if rows == 1 {
+					counts[it]++
+				} else if pos < rows {
+					counts[pos*n+it]++
+				}
+			}
+		}
+	}
+	c.Emit("C20.marg", what, itoa(k), itoa(n), strconv.FormatInt(seed0, 10), itoa(nseeds), core.IntList(counts))
+}
+
 // ---------------------------------------------------------------- generation
 
 func treeOpts(g *core.G) core.TreeOpts {
@@ -1208,6 +1290,8 @@ func Replay(c *core.Ctx, lines []string) {
 			doUTree(c, at(1) == "cli", num64(2), num(3), at(4) == "1")
 		case "C20.fib":
 			doFib(c, s, at(1), num(2), num(3), num64(4))
+		case "C20.marg":
+			doMarg(c, s, at(1), num(2), num(3), num64(4), num(5))
 		case "C20.freq":
 			doFreq(c, s, at(1), num(2), num(3), num64(4), num(5))
 		}
@@ -1234,6 +1318,10 @@ func fibInstances(quick bool) []inst {
 	for _, kn := range [][2]int{{1, 1}, {1, 2}, {2, 2}, {1, 3}, {2, 3}, {3, 2}, {1, 4}, {2, 4}, {1, 5}} {
 		l = append(l, inst{"replace", kn[0], kn[1]})
 	}
+	// k close to n: the draw space is tiny whatever n is, so the last draws Intn(k+1) … Intn(n) are
+	// enumerated exactly on the real code at sizes far beyond the other fibres
+	l = append(l, inst{"tips", 10, 12}, inst{"tips", 18, 20}, inst{"tips", 28, 30}, inst{"tipsR", 38, 40}, inst{"tips", 63, 64},
+		inst{"sample", 13, 15}, inst{"sample", 23, 25}, inst{"sample", 99, 100})
 	l = append(l, inst{"shuffleT", 0, 3}, inst{"shuffleT", 0, 4}, inst{"shuffleT", 0, 5}, inst{"tipsT", 1, 3}, inst{"tipsT", 2, 4}, inst{"tipsT", 3, 5}, inst{"tipsR", 1, 2}, inst{"tipsR", 2, 4}, inst{"tipsR", 2, 5}, inst{"shuffleR", 0, 2}, inst{"shuffleR", 0, 4}, inst{"shuffleR", 0, 5})
 	maxn := 6
 	if !quick {
@@ -1323,6 +1411,17 @@ func Run(c *core.Ctx) {
 		} else {
 			doFreq(c, s, in.what, in.k, in.n, c.Seed*7919, ns)
 		}
+	}
+	// 3b. model-free marginal frequencies of every operation, beyond the sizes the fibres reach
+	nm := c.Scale(2000, 12000)
+	margKinds := []inst{{"sample", 5, 20}, {"sample", 12, 25}, {"replace", 3, 15}, {"tips", 7, 30}, {"tips", 1, 40},
+		{"tipsR", 10, 21}, {"tipsT", 4, 16}, {"shuffle", 0, 12}, {"shuffle", 0, 25}, {"shuffleR", 0, 17}, {"shuffleT", 0, 10},
+		{"rotate", 0, 9}, {"rotate", 1, 12}, {"utreeU", 0, 9}, {"utreeU", 0, 16}}
+	if !c.Quick() && c.Seed%1000 != 0 {
+		margKinds = nil // thorough: once, in the first shard
+	}
+	for _, in := range margKinds {
+		doMarg(c, s, in.what, in.k, in.n, c.Seed*104729, nm)
 	}
 	// 4. command-line tier
 	if c.Gotree != "" {
